@@ -337,4 +337,18 @@ example : ((Sys.run (Sys.init { c18A with rx_rto := 30 } c18A 20 1000)
      [.dlvB, .read, .flushA, .flushB] ++ List.replicate 10 .tick ++ [.flushA])).A.snd_buf.map (fun x => x.xmit)) = [2] := by
   decide
 
+/-! a larger run: 3003 bytes in four segments, `ackNoDelay` at B, 60 steps of the canonical scheduler
+(`Sys.auto`: deliver what is due, read, flush when a flush is due, else tick): the run hypotheses hold
+along the whole run, everything is delivered and acknowledged -/
+
+def c18Big : List Sys.Ev :=
+  [.send (List.replicate 3000 5), .send [1, 2, 3]] ++
+    (Sys.auto 60 (Sys.run (Sys.init c18A c18A 3 1000 (ndB := true)) [.send (List.replicate 3000 5), .send [1, 2, 3]]) []).2
+
+set_option maxRecDepth 100000 in
+example : SysC.RunOk c18A.snd_nxt (Sys.init c18A c18A 3 1000 (ndB := true)) c18Big := by decide
+set_option maxRecDepth 100000 in
+example : (Sys.run (Sys.init c18A c18A 3 1000 (ndB := true)) c18Big).got.length = 3003 ∧
+    (Sys.run (Sys.init c18A c18A 3 1000 (ndB := true)) c18Big).A.waitSnd = 0 := by decide
+
 end KcpVerif.Props
